@@ -1,4 +1,5 @@
 """C09 — padding is inert: masked positions influence nothing."""
+import os
 import random, copy
 from functools import partial
 from fractions import Fraction
@@ -71,6 +72,9 @@ def configs():
     add('lfq', lambda: LFQ(dim=3, codebook_size=8, commitment_loss_weight=0.25), 3, 'lfq')
     add('lfq-codebooks', lambda: LFQ(dim=4, codebook_size=4, num_codebooks=2, commitment_loss_weight=0.25, experimental_softplus_entropy_loss=True), 4, 'lfq')
     add('rlfq', lambda: ResidualLFQ(dim=3, codebook_size=8, num_quantizers=2, commitment_loss_weight=0.25), 3, 'rlfq')
+    from vlib import zoo
+    for zname, zc, zkw in zoo.configs():
+        add(zname, (lambda zkw=zkw: VectorQuantize(**zkw())), zkw()['dim'])
     return C
 
 
@@ -91,7 +95,7 @@ def ragged_mask(rng, torch, b, n):
 
 def paddings(rng, torch, x, m, mod):
     """two versions of x that agree on valid positions and differ (adversarially) on the padded ones"""
-    fills = [1e4, -3e4, 0.0, 7.5]
+    fills = [1e4, -3e4, 0.0, 7.5, 1e25, -1e30, float(os.environ.get('VERIF_C09_FILL', '3e38'))]     # "arbitrary (huge, adversarial) padding values"
     a = torch.where(m[..., None], x, torch.full_like(x, rng.choice(fills)))
     bfill = torch.randn_like(x) * rng.choice([1e3, 1.0, 1e-3])
     b = torch.where(m[..., None], x, bfill)
@@ -221,7 +225,7 @@ def correspond(ctx, scale):
                             dist['model_cases'] += 1
             dist['pairs'] += 1
         # (5) "as if only the valid tokens had been passed": one sample, prefix mask  vs  the truncated sequence without a mask
-        if cfg['kind'] in ('vq', 'rvq') and cfg['name'] not in ('vq-stochastic',):
+        if cfg['kind'] in ('vq', 'rvq') and 'stochastic' not in cfg['name']:   # sampling noise is drawn per position (padding included): compact equivalence holds in distribution only
             for rep in range(reps):
                 base = cfg['mk']()
                 mA, mB = copy.deepcopy(base), copy.deepcopy(base)
